@@ -2,14 +2,15 @@
 """Prints the DESIGN 6.3 table (quick tier) from the evidence files of the last run."""
 import json, glob, os
 HERE = os.path.dirname(os.path.abspath(__file__))
-print("| prop | engines | obligations (held / known finding) | solver queries | wall |")
-print("|---|---|---|---|---|")
+print("| prop | engines | obligations (held / known finding) | solver queries | wall | tier |")
+print("|---|---|---|---|---|---|")
 for f in sorted(glob.glob(os.path.join(HERE, "evidence", "C*.json"))):
     d = json.load(open(f))
-    obs = d.get("obligation_results") or d.get("obligations") or []
+    cov = d.get("coverage", {})
+    obs = cov.get("obligation_results") or []
     eng = sorted(set((o.get("engine") or "?").split(":")[0] for o in obs))
     held = sum(1 for o in obs if o.get("verdict") == "holds")
     known = sum(1 for o in obs if o.get("verdict") == "violated")
-    q = sum(int(o.get("queries") or 0) for o in obs)
-    wall = d.get("wall_seconds") or d.get("wall_s") or d.get("duration_s") or 0
-    print("| %s | %s | %d (%d / %d) | %d | %s s | tier=%s |" % (os.path.basename(f)[:-5], "+".join(eng), len(obs), held, known, q, int(wall) if wall else "?", d.get("tier", "?")))
+    q = cov.get("solver_queries") or sum(int(o.get("queries") or 0) for o in obs)
+    wall = d.get("wall_s") or 0
+    print("| %s | %s | %d (%d / %d) | %d | %s s | %s |" % (os.path.basename(f)[:-5], "+".join(eng), len(obs), held, known, q, int(wall) if wall else "?", d.get("tier", "?")))
